@@ -72,8 +72,27 @@ def cpython_at(z, u):
     return (off.days * 86400 + off.seconds, d.tzname())
 
 
+def rule_text_from_footer(tz):
+    """protocol text (`A …`) of the rule the generated Lean list holds for this footer"""
+    import gen_lean
+    r = gen_lean.parse_iana_tz(tz)
+    if r is None:
+        return None
+    stdname, so, dstname, do, d1, t1, d2, t2 = r
+
+    def nm(x):
+        return "x" + bytes(int(b) for b in x.strip("[]").split(", ")).hex()
+
+    def day(x):
+        k, *v = x.split(" ")
+        return {".julian1": "J%s", ".julian0": "Z%s"}.get(k, "M%s.%s.%s") % tuple(v)
+
+    return "A %d 0 %s %d 1 %s %s %d %s %d" % (so, nm(stdname), do, nm(dstname), day(d1), t1, day(d2), t2)
+
+
 def run(pid, cfg, tier, seed, tally, ck):
     viol = []
+    rules_checked = 0
     ok, out, hbin = ck.build_harness("release")
     if not ok:
         ck.infra("harness does not build")
@@ -108,6 +127,17 @@ def run(pid, cfg, tier, seed, tally, ck):
                 continue
             if raw.startswith("zone "):
                 _, types, leaps = parse_zone(raw.split(" => ")[0])
+                # the generated Lean list of IANA rules must hold exactly the rule the implementation decoded
+                lhs = raw.split(" => ")[0]
+                if " R A " in lhs and cur_file:
+                    b = open(cur_file, "rb").read()
+                    i = b.rfind(b"\n", 0, len(b) - 1)
+                    want = rule_text_from_footer(b[i + 1:-1].decode("ascii", "replace"))
+                    got = "A " + lhs.split(" R A ", 1)[1]
+                    rules_checked += 1
+                    if want != got and len(viol) < 5:
+                        rp = ck.write_replay(pid, "generated-rule-mismatch", {"file": cur_file, "implementation_decoded": got, "generated_lean_rule": want})
+                        viol.append(("iana-rule", rp, False))
                 continue
             if raw.startswith("lookup ") and cur_file:
                 lhs, ans = raw.split(" => ")
@@ -184,6 +214,7 @@ def run(pid, cfg, tier, seed, tally, ck):
         else:
             os.environ["TZ"] = old_tz
         time.tzset()
+    stats["footer_rules_cross_checked_with_generated_lean_list"] = rules_checked
     cov = {"reference_differential": stats, "reference_samples": samples,
            "explanation": "every vendored TZif file decoded by implementation and Lean model (identical zones); implementation answers at every "
                           "transition and leap record -1/0/+1, rule instants and random instants compared with glibc (posix and right/ trees) and CPython "
